@@ -2389,7 +2389,7 @@ class ParametersNode(SyntaxNodeBase):
         The internal dictionary doesn't use the full classifier directly,
         because some parameters should not be both allowed: e.g., ``fill`` and ``*fill``.
         The key is a string that is all lower case, and only uses the classifiers prefix,
-        and particles.
+        its number if it has one (``tmp1``, ``wwn2:n``), and particles.
 
         So to access a cell's fill information you would run:
 
@@ -2419,8 +2419,11 @@ class ParametersNode(SyntaxNodeBase):
         :type val: SyntaxNode
         """
         classifier = val["classifier"]
+        # the number is part of the name: TMP1 and TMP2 (or WWN1:n and WWN2:n) are different parameters
+        number = classifier.number
         key = (
             classifier.prefix.value
+            + (str(number.value) if number is not None and number.value is not None else "")
             + (str(classifier.particles) if classifier.particles else "")
         ).lower()
         if key in self._nodes:
